@@ -51,6 +51,7 @@ K4 (constant-parameter elimination decision, `mir_constant_param_elimination.rs`
   `g` in every function, and every function of the program keeps its printed lines and result;
 * `cpe_prog_unused_many_preserves`: several unused parameters removed in one sweep (decision taken once on the
   original program; the shape of the remaining parameters survives each removal);
+* `cpe_prog_mixed_sweep_preserves`: constant and unused parameters mixed in one sweep (`elimMany`);
 * `cpe_anyslot_counterexample`: the own-slot clause of the self-call exemption is necessary (the any-slot variant
   of seeded faults C01 / C03f classifies a rotated parameter as unused and changes the result).
 -/
@@ -1137,6 +1138,128 @@ theorem cpe_prog_unused_many_preserves (ev : Op → Int → Int → Option Int) 
 
 -- non-vacuity: in `hgProg` nothing is unused, so the empty list; and a two-parameter instance
 example : AllUnusedShape hgProg 2 (hgProg[2]!) [] := fun _ h => by cases h
+
+end SamVerif.C01
+
+/-! ## K4c: constant and unused parameters mixed in one sweep (round 6) -/
+namespace SamVerif.C01
+open SamVerif.TailRec SamVerif.CpeProg
+open SamVerif.Opt (Op)
+
+/-- The shape the decision establishes for one eliminated parameter, in the whole program. -/
+def ElimShape (prog : Prog) (g : Nat) (gfn : PFn) : Elim → Prop
+  | .unused i => ∃ p, gfn.params[i]? = some p ∧
+      ∀ fn ∈ prog, okU g i gfn.params.length (hideOf g p fn) fn.body
+  | .const i n => ∃ p, gfn.params[i]? = some p ∧
+      ∀ fn ∈ prog, okC g i gfn.params.length n (hideOf g p fn) fn.body
+
+/-- **Composition: constant and unused parameters mixed in one sweep.** If every parameter in `es`
+(highest index first) has, in the *original* program, the shape its classification establishes
+(`Unused`: `okU`; `Int32Constant(n)`: `okC`), then the whole sweep — dropping the unused ones,
+substituting and dropping the constant ones — keeps the printed lines and the result of every
+function, provided `g` is entered from outside with the constants in their positions. -/
+theorem cpe_prog_mixed_sweep_preserves (ev : Op → Int → Int → Option Int) (g : Nat) :
+    ∀ (es : List Elim) (prog : Prog) (gfn : PFn), lookup prog g = some gfn → gfn.params.Nodup →
+      (es.map Elim.idx).Pairwise (· > ·) → (∀ e ∈ es, ElimShape prog g gfn e) →
+      ∀ (h : Nat) (fuel : Nat) (vals : List Int),
+        (h = g → ∀ i n, Elim.const i n ∈ es → vals[i]? = some n) →
+        run ev prog h fuel vals =
+          run ev (elimMany g es gfn.params prog) h fuel
+            (if h = g then eraseMany (es.map Elim.idx) vals else vals) := by
+  intro es
+  induction es with
+  | nil => intro prog gfn _ _ _ _ h fuel vals _; simp [elimMany, eraseMany]
+  | cons e rest ih =>
+    intro prog gfn hg hnd hpw hsh h fuel vals hv
+    have hgm := lookup_mem hg
+    have hpw' := List.pairwise_cons.mp (show List.Pairwise (· > ·) (e.idx :: rest.map Elim.idx) from hpw)
+    -- common continuation: given the program after the first step, with bodies `dropArgs g i (B fn)`
+    have cont : ∀ (i : Nat) (B : PFn → PBody), e.idx = i → i < gfn.params.length →
+        (∀ (fn : PFn) (j kg : Nat) (hide : Option Name), okU g j kg hide fn.body → okU g j kg hide (B fn)) →
+        (∀ (fn : PFn) (j kg : Nat) (m : Int) (hide : Option Name), okC g j kg m hide fn.body → okC g j kg m hide (B fn)) →
+        ∀ (vals' : List Int), (h = g → ∀ j n, Elim.const j n ∈ rest → vals'[j]? = some n) →
+        run ev (prog.map fun fn => ({ fn with params := if fn.name = g then fn.params.eraseIdx i else fn.params,
+                                              body := dropArgs g i (B fn) } : PFn)) h fuel vals' =
+          run ev (elimMany g rest (gfn.params.eraseIdx i)
+            (prog.map fun fn => ({ fn with params := if fn.name = g then fn.params.eraseIdx i else fn.params,
+                                           body := dropArgs g i (B fn) } : PFn))) h fuel
+            (if h = g then eraseMany (rest.map Elim.idx) vals' else vals') := by
+      intro i B hei hi hBU hBC vals' hv'
+      let T : PFn → PFn := fun fn =>
+        { fn with params := if fn.name = g then fn.params.eraseIdx i else fn.params, body := dropArgs g i (B fn) }
+      have hg' : lookup (prog.map T) g = some (T gfn) := by
+        have := lookup_map prog T (fun _ => rfl) g
+        rw [hg] at this; exact this
+      have hpar : (T gfn).params = gfn.params.eraseIdx i := by simp [T, hgm.2]
+      have hnd' : (T gfn).params.Nodup := by rw [hpar]; exact hnd.sublist (List.eraseIdx_sublist ..)
+      have hlen : (T gfn).params.length = gfn.params.length - 1 := by
+        rw [hpar, List.length_eraseIdx]; simp [hi]
+      have hsh' : ∀ e' ∈ rest, ElimShape (prog.map T) g (T gfn) e' := by
+        intro e' he'
+        have hji : e'.idx < i := by
+          have := hpw'.1 e'.idx (List.mem_map_of_mem he')
+          omega
+        have horig := hsh e' (List.mem_cons_of_mem _ he')
+        cases e' with
+        | unused j =>
+          obtain ⟨q, hq, hallq⟩ := horig
+          refine ⟨q, by rw [hpar, List.getElem?_eraseIdx]; simp [Elim.idx] at hji; simp [hji, hq], ?_⟩
+          intro fn' hfn'
+          obtain ⟨fn, hfn, rfl⟩ := List.mem_map.mp hfn'
+          rw [hlen]
+          have := okU_dropArgs g i j gfn.params.length (hideOf g q fn) (by simpa [Elim.idx] using hji) hi (B fn)
+            (hBU fn j _ _ (hallq fn hfn))
+          simpa [T, hideOf] using this
+        | const j m =>
+          obtain ⟨q, hq, hallq⟩ := horig
+          refine ⟨q, by rw [hpar, List.getElem?_eraseIdx]; simp [Elim.idx] at hji; simp [hji, hq], ?_⟩
+          intro fn' hfn'
+          obtain ⟨fn, hfn, rfl⟩ := List.mem_map.mp hfn'
+          rw [hlen]
+          have := okC_dropArgs g i j gfn.params.length m (hideOf g q fn) (by simpa [Elim.idx] using hji) hi (B fn)
+            (hBC fn j _ m _ (hallq fn hfn))
+          simpa [T, hideOf] using this
+      have := ih (prog.map T) (T gfn) hg' hnd' hpw'.2 hsh' h fuel vals' hv'
+      rw [hpar] at this
+      exact this
+    -- entry condition for the rest after erasing index i
+    have hvrest : ∀ (i : Nat), e.idx = i →
+        (h = g → ∀ j n, Elim.const j n ∈ rest → (if h = g then vals.eraseIdx i else vals)[j]? = some n) := by
+      intro i hei hh j n hm
+      have hji : j < i := by
+        have := hpw'.1 j (List.mem_map.mpr ⟨Elim.const j n, hm, rfl⟩)
+        omega
+      simp only [hh, if_true]
+      rw [List.getElem?_eraseIdx]
+      simp [hji, hv hh j n (List.mem_cons_of_mem _ hm)]
+    cases e with
+    | unused i =>
+      obtain ⟨p, hp, hall⟩ := hsh (.unused i) (List.mem_cons_self ..)
+      have hi : i < gfn.params.length := (List.getElem?_eq_some_iff.mp hp).1
+      rw [run_dropParam ev prog g i gfn p hg hp hnd hall h fuel vals]
+      have := cont i (fun fn => fn.body) rfl hi (fun _ _ _ _ hq => hq) (fun _ _ _ _ _ hq => hq)
+        (if h = g then vals.eraseIdx i else vals) (hvrest i rfl)
+      simp only [elimMany, elimStep, Elim.idx, dropParam, eraseMany, List.map_cons, List.foldl_cons] at this ⊢
+      rw [this]
+      by_cases hh : h = g <;> simp [hh, eraseMany]
+    | const i n =>
+      obtain ⟨p, hp, hall⟩ := hsh (.const i n) (List.mem_cons_self ..)
+      have hi : i < gfn.params.length := (List.getElem?_eq_some_iff.mp hp).1
+      rw [run_substParam ev prog g i gfn p n hg hp hnd hall h fuel vals
+        (fun hh => hv hh i n (List.mem_cons_self ..))]
+      have := cont i (fun fn => if fn.name = g then substVar p n fn.body else fn.body) rfl hi
+        (fun fn j kg hide hq => by split; exact okU_substVar g j kg hide p n fn.body hq; exact hq)
+        (fun fn j kg m hide hq => by split; exact okC_substVar g j kg m hide p n fn.body hq; exact hq)
+        (if h = g then vals.eraseIdx i else vals) (hvrest i rfl)
+      simp only [elimMany, elimStep, Elim.idx, substParam, eraseMany, List.map_cons, List.foldl_cons, hp,
+        Option.getD_some] at this ⊢
+      rw [this]
+      by_cases hh : h = g <;> simp [hh, eraseMany]
+
+
+-- non-vacuity: in `hgProg` parameter 3 of function 2 (`c`) is the constant 7
+example : (Elim.const 3 7).idx = 3 := rfl
+example : ([Elim.const 3 7].map Elim.idx).Pairwise (· > ·) := by decide
 
 end SamVerif.C01
 
